@@ -486,6 +486,12 @@ def law_cases(path, seed=0):
         yield {"kind": "law", "obj": st["obj"]}
         # the same segment at another coordinate magnitude (the property quantifies over 1e-3 .. 1e5)
         u = [(100000, 1), (12345, 1), (1, 1000)][(n + seed) % 3]
+        # (the property's range ends at 1e5: a segment that is already large is scaled only up to that magnitude)
+        big = max([abs(float(rat(v))) for q in st["obj"][1:4] if isinstance(q, list) and len(q) == 2 and isinstance(q[0], list) for v in q] + [1.0])
+        if u[1] == 1 and big * u[0] > 1e5:
+            u = (max(1, int(1e5 // big)), 1)
+            if u[0] == 1:
+                continue
         sc = c02.scaled({"obj": st["obj"], "img": st["obj"], "hist": [], "acc": ID6}, u)
         yield {"kind": "law", "obj": sc["obj"], "unit": sc["unit"]}
 
